@@ -29,3 +29,18 @@ From SqlModel.Inst Require C12Fin.
 Definition C12_pipeline_fin_thm := C12Fin.C12_pipeline_fin.
 Definition C12_pipeline_fin_member_thm := C12Fin.C12_pipeline_fin_member.
 Print Assumptions C12Fin.C12_pipeline_fin_member.
+
+(* the family LIFTED over the VALUES of the white-space tokens (Inst/C12Lift.v): for every family text and every text whose
+   token stream differs from it only in the values of its white-space tokens (a tab for a blank, CR LF for LF, ...) the parse
+   tree has an Identifier node on which get_real_name / get_alias / has_alias / get_name return the same written parts.
+   Generic ingredients: all 25 passes respect the relation (Group/WsRelFacts.v) and the accessors are invariant under it
+   (get_real_name_rel, get_name_rel, get_alias_rel, has_alias_rel; get_parent_name_rel when the token in front of the period is
+   no group -- a group's text contains the white space inside it) *)
+From SqlModel.Inst Require C12Lift.
+Definition C12_family_respelled_thm := C12Lift.C12_family_respelled.
+Definition C12_get_real_name_rel := C12Lift.get_real_name_rel.
+Definition C12_get_name_rel := C12Lift.get_name_rel.
+Definition C12_get_alias_rel := C12Lift.get_alias_rel.
+Definition C12_get_parent_name_rel := C12Lift.get_parent_name_rel.
+Print Assumptions C12Lift.C12_family_respelled.
+Print Assumptions C12Lift.get_parent_name_rel.
